@@ -1,5 +1,6 @@
 import Mdsort.Proofs.Eval
 import Mdsort.Proofs.BlockSelect
+import Mdsort.Proofs.WorldFrame
 
 /-!
 # C03 - rules are evaluated with the documented first-match semantics
@@ -148,5 +149,102 @@ example : (Proofs.selectPaths (exPEnv false) exConf).map (·.paths) = [[], [[47,
 example : (Proofs.selectBlocks (exPEnv false) exConf).map (·.paths) = [[[47, 109]]] := by decide +kernel
 example : (Proofs.selectBlocks (exPEnv true) exConf).map (·.paths) =
     [[ofString "/dev/stdin"], [ofString "/dev/stdin"]] := by decide +kernel
+
+/-! ## No match, no effect (world level)
+
+`processMessage` is `message_parse`, `expr_eval`, `matches_interpolate`, `matches_inspect` /
+`matches_exec`, `message_free` of the loop in `main`.  `runOracle orcl` runs it against ARBITRARY call
+results, so the statements hold for every behaviour of the file system, every fault and every
+interleaving with other processes. -/
+
+/-- **No match, no effect.**  For every environment, evaluation oracles, rule tree, maildir, message
+name, loop state and every oracle of call results: if evaluating the rules on the message says *no
+match* or *error*, or says *match* and the interpolation of the actions' strings fails, then
+`processMessage` issues only the `openat(O_RDONLY)`, `read` and `close` calls of parsing and freeing
+the message (no mutating call, no `fork`): its trace is the trace of the parse phase followed by
+`close` calls only; the maildir is returned as it was; and the loop state is unchanged (`files`,
+`reject`, `log`) except that `error` is set exactly when the parse failed or the evaluation result
+is not *no match*. -/
+theorem C03_no_match_no_effect (env : PEnv) (orc : EvalOracles) (expr : Expr) (md : Maildir) (name : Bytes)
+    (st : MainSt) (d : Handle) (content p n : Bytes) (mf : MFlags)
+    (hd : md.dirH = some d) (hf : st.files.get md.path name = some content)
+    (hp : pathjoin PATH_MAX md.path name = some p) (hn : strlcpyFits NAME_MAX1 name = some n)
+    (hmf : flagsParse n = some mf)
+    (hno :
+      (eval (Proofs.msgEnv env orc p) (parseMessage content) expr 0 (parseMessage content) { ml := [], flags := mf }).1 = .nomatch ∨
+      (eval (Proofs.msgEnv env orc p) (parseMessage content) expr 0 (parseMessage content) { ml := [], flags := mf }).1 = .error ∨
+      ((eval (Proofs.msgEnv env orc p) (parseMessage content) expr 0 (parseMessage content) { ml := [], flags := mf }).1 = .match ∧
+       (matchesInterpolate (Proofs.msgEnv env orc p)
+          (eval (Proofs.msgEnv env orc p) (parseMessage content) expr 0 (parseMessage content) { ml := [], flags := mf }).2.ml
+          (partMsg (parseMessage content) ((getAttachments (parseMessage content)).getD []))).isNone = true))
+    (orcl : Nat → Call → Res) :
+    (∀ x ∈ (runOracle orcl (processMessage env orc expr md name st) 0 []).2,
+      ((∃ nm, x.1 = .openRd d nm) ∨ (∃ fd, x.1 = .read fd) ∨ ∃ fd, x.1 = .close fd) ∧
+        x.1.mutating = false ∧ x.1 ≠ .fork) ∧
+    (∃ L, (runOracle orcl (processMessage env orc expr md name st) 0 []).2 =
+        (runOracle orcl (messageParseP d md.path name content) 0 []).2 ++ L ∧ ∀ x ∈ L, ∃ fd, x.1 = .close fd) ∧
+    (runOracle orcl (processMessage env orc expr md name st) 0 []).1 =
+      (if (runOracle orcl (messageParseP d md.path name content) 0 []).1.isNone ||
+          (eval (Proofs.msgEnv env orc p) (parseMessage content) expr 0 (parseMessage content) { ml := [], flags := mf }).1 != .nomatch
+        then { st with error := true } else st, md) :=
+  Proofs.processMessage_noMatch_run env orc expr md name st d content p n mf hd hf hp hn hmf hno orcl
+
+/-- The same for every message for which the rules do not produce an action list
+(`Proofs.verdict`: no match, evaluation error, interpolation failure, or a name `message_parse`
+rejects - path too long, name too long, invalid flag suffix), without assumptions on the name. -/
+theorem C03_no_action_no_effect (env : PEnv) (orc : EvalOracles) (expr : Expr) (md : Maildir) (name : Bytes)
+    (st : MainSt) (d : Handle) (content : Bytes)
+    (hd : md.dirH = some d) (hf : st.files.get md.path name = some content)
+    (hv : (Proofs.verdict env orc expr md.path name content).acts = false)
+    (orcl : Nat → Call → Res) :
+    (∀ x ∈ (runOracle orcl (processMessage env orc expr md name st) 0 []).2,
+      ((∃ nm, x.1 = .openRd d nm) ∨ (∃ fd, x.1 = .read fd) ∨ ∃ fd, x.1 = .close fd) ∧
+        x.1.mutating = false ∧ x.1 ≠ .fork) ∧
+    (∃ L, (runOracle orcl (processMessage env orc expr md name st) 0 []).2 =
+        (runOracle orcl (messageParseP d md.path name content) 0 []).2 ++ L ∧ ∀ x ∈ L, ∃ fd, x.1 = .close fd) ∧
+    (runOracle orcl (processMessage env orc expr md name st) 0 []).1 =
+      (if (runOracle orcl (messageParseP d md.path name content) 0 []).1.isNone ||
+          (Proofs.verdict env orc expr md.path name content).isErr then { st with error := true } else st, md) :=
+  Proofs.processMessage_noAct_run env orc expr md name st d content hd hf hv orcl
+
+/-- A maildir that is not open, or a name the model has no content for: no call at all; the
+second is reported as an error. -/
+theorem C03_unknown_message_no_call (env : PEnv) (orc : EvalOracles) (expr : Expr) (md : Maildir) (name : Bytes)
+    (st : MainSt) (orcl : Nat → Call → Res) (i : Nat) (tr : List (Call × Res)) :
+    (md.dirH = none → runOracle orcl (processMessage env orc expr md name st) i tr = ((st, md), tr)) ∧
+    (md.dirH.isSome = true → st.files.get md.path name = none →
+      runOracle orcl (processMessage env orc expr md name st) i tr = (({ st with error := true }, md), tr)) :=
+  Proofs.processMessage_degenerate_run env orc expr md name st orcl i tr
+
+/-! Non-vacuity: the message `Subject: x\n\nb\n` named `1` in `/m/new`, no regex ever matches.
+`match header "X" /1/ move "/d"` evaluates to *no match*; `match command "t" move "/d"` to *error*
+(the command oracle of `processMessage` reports failure); `match all move "\1"` matches and its
+interpolation fails (see `C12_error_no_effect`). -/
+example :
+    pathjoin PATH_MAX [47, 109, 47, 110, 101, 119] [49] = some [47, 109, 47, 110, 101, 119, 47, 49] ∧
+    strlcpyFits NAME_MAX1 [49] = some [49] ∧ flagsParse [49] = some MFlags.empty ∧
+    (eval (Proofs.msgEnv Proofs.examplePEnv Proofs.exampleOracles [47, 109, 47, 110, 101, 119, 47, 49])
+      (parseMessage [83, 117, 98, 106, 101, 99, 116, 58, 32, 120, 10, 10, 98, 10])
+      (.mtch 1 (.header 1 [[88]] { src := [49] }) (.move 1 [47, 100])) 0
+      (parseMessage [83, 117, 98, 106, 101, 99, 116, 58, 32, 120, 10, 10, 98, 10])
+      { ml := [], flags := MFlags.empty }).1 = .nomatch ∧
+    (eval (Proofs.msgEnv Proofs.examplePEnv Proofs.exampleOracles [47, 109, 47, 110, 101, 119, 47, 49])
+      (parseMessage [83, 117, 98, 106, 101, 99, 116, 58, 32, 120, 10, 10, 98, 10])
+      (.mtch 1 (.command 1 [[116]]) (.move 1 [47, 100])) 0
+      (parseMessage [83, 117, 98, 106, 101, 99, 116, 58, 32, 120, 10, 10, 98, 10])
+      { ml := [], flags := MFlags.empty }).1 = .error := by
+  simp only [eval]
+  decide +kernel
+
+/-- The verdicts of the same three rule trees, and of a name with an invalid flag suffix. -/
+example :
+    (Proofs.verdict Proofs.examplePEnv Proofs.exampleOracles (.mtch 1 (.header 1 [[88]] { src := [49] }) (.move 1 [47, 100]))
+      [47, 109, 47, 110, 101, 119] [49] [83, 117, 98, 106, 101, 99, 116, 58, 32, 120, 10, 10, 98, 10]).acts = false ∧
+    (Proofs.verdict Proofs.examplePEnv Proofs.exampleOracles (.mtch 1 (.all 1) (.move 1 [92, 49]))
+      [47, 109, 47, 110, 101, 119] [49] [83, 117, 98, 106, 101, 99, 116, 58, 32, 120, 10, 10, 98, 10]).isErr = true ∧
+    (Proofs.verdict Proofs.examplePEnv Proofs.exampleOracles (.mtch 1 (.all 1) (.move 1 [47, 100]))
+      [47, 109, 47, 110, 101, 119] [49] [83, 117, 98, 106, 101, 99, 116, 58, 32, 120, 10, 10, 98, 10]).acts = true := by
+  simp only [Proofs.verdict, Proofs.msVerdict, eval]
+  decide +kernel
 
 end Mdsort.Props
